@@ -35,6 +35,7 @@ import (
 	"sort"
 	"strings"
 	"sync"
+	"sync/atomic"
 	"testing"
 	"time"
 
@@ -57,11 +58,12 @@ func mcPlan() []*mcRun {
 		{module: "FifoMutex", cfg: "MC_fifomutex_defect.cfg", expect: "fifo-granted-out-of-arrival-order"},
 		{module: "FifoMap", cfg: ev.Pick("MC_fifomap_small.cfg", "MC_fifomap_big.cfg")},
 		{module: "FifoMap", cfg: "MC_fifomap_defect.cfg", expect: "*"},
+		// CmapMutex.tla models the code as it is now (re-validation after acquiring, DeleteRUnlock deleting only an unused
+		// mutex); the code as found (F-C13-1) is the defect variant Repaired = FALSE
 		{module: "CmapMutex", cfg: ev.Pick("MC_cmap_small.cfg", "MC_cmap_big.cfg")},
+		{module: "CmapMutex", cfg: ev.Pick("MC_cmap_small_2g.cfg", "MC_cmap_big_2k.cfg")},
 		{module: "CmapMutex", cfg: "MC_cmap_defect.cfg", expect: "-after-deleteunlock"},
 		{module: "CmapMutex", cfg: "MC_cmap_defect_delr.cfg", expect: "-after-deleterunlock"},
-		{module: "CmapMutex", cfg: ev.Pick("MC_cmap_repair_small.cfg", "MC_cmap_repair.cfg")},           // candidate repair: revalidate after acquiring
-		{module: "CmapMutex", cfg: ev.Pick("MC_cmap_repair_full_small.cfg", "MC_cmap_repair_full.cfg")}, // ... plus DeleteRUnlock deleting only an unused mutex
 		{module: "CtxLock", cfg: ev.Pick("MC_ctxlock_small.cfg", "MC_ctxlock_big.cfg")},
 		{module: "CtxLock", cfg: "MC_ctxlock_small_rw.cfg"},
 		{module: "CtxLock", cfg: "MC_ctxlock_defect.cfg", expect: "unobtainable-though-nobody-holds-it-after-a-failed-acquisition"},
@@ -74,7 +76,8 @@ func mcPlan() []*mcRun {
 		p = append(p,
 			&mcRun{module: "CmapMutex", cfg: "MC_cmap_delete.cfg", expect: "*"}, // plain Delete by a bystander: outside the quantifier, and why
 			&mcRun{module: "CtxLock", cfg: "MC_ctxlock_4g.cfg"},
-			&mcRun{module: "CmapMutex", cfg: "MC_cmap_repair_full_small.cfg"},
+			&mcRun{module: "CmapMutex", cfg: "MC_cmap_small.cfg"},
+			&mcRun{module: "CmapMutex", cfg: "MC_cmap_small_2g.cfg"},
 			&mcRun{module: "OuterCancel", cfg: "MC_outer_g2.cfg"},
 			&mcRun{module: "OuterCancel", cfg: "MC_outer_2w.cfg"},
 			&mcRun{module: "OuterCancel", cfg: "MC_outer_2rounds.cfg"},
@@ -372,7 +375,7 @@ type trace struct {
 	done     bool
 }
 
-var unconfirmedCrashes int
+var unconfirmedCrashes atomic.Int64
 
 var reFatal = regexp.MustCompile(`(?m)^(fatal error: .*|panic: .*)$`)
 
@@ -515,7 +518,7 @@ func runScenarios(scs []scenario, procs int) (res map[int]*trace, err error) {
 		for _, s := range crashed {
 			if t := again[s.ID]; t != nil && t.done {
 				if t.crash == "" {
-					unconfirmedCrashes++
+					unconfirmedCrashes.Add(1)
 				}
 				res[s.ID] = t
 			}
@@ -546,22 +549,22 @@ func runScenarios(scs []scenario, procs int) (res map[int]*trace, err error) {
 // ---------- verdicts ----------
 
 var whyText = map[string]string{
-	"two-holders":                         "two exclusive holders of one lock/key inside their critical sections at once",
-	"writer-with-reader":                  "a writer inside its critical section together with a reader that has not been told to stop",
-	"fifo-granted-out-of-arrival-order":   "a FIFO lock was granted to a goroutine while another one that was seen blocked earlier still waits",
-	"fifomap-entry-left-behind":           "the fifo map keeps a per-key entry although nobody holds or waits for that key",
-	"fifomap-entry-missing-while-in-use":  "the fifo map has no entry for a key somebody still holds or waits for",
-	"waiter-whose-context-ended-keeps-waiting": "a waiter whose context ended keeps waiting (it is still blocked when nothing else can move, or at the end of the run)",
-	"unobtainable-though-nobody-holds-it": "a caller waits forever although nobody holds the lock",
+	"two-holders":                                                    "two exclusive holders of one lock/key inside their critical sections at once",
+	"writer-with-reader":                                             "a writer inside its critical section together with a reader that has not been told to stop",
+	"fifo-granted-out-of-arrival-order":                              "a FIFO lock was granted to a goroutine while another one that was seen blocked earlier still waits",
+	"fifomap-entry-left-behind":                                      "the fifo map keeps a per-key entry although nobody holds or waits for that key",
+	"fifomap-entry-missing-while-in-use":                             "the fifo map has no entry for a key somebody still holds or waits for",
+	"waiter-whose-context-ended-keeps-waiting":                       "a waiter whose context ended keeps waiting (it is still blocked when nothing else can move, or at the end of the run)",
+	"unobtainable-though-nobody-holds-it":                            "a caller waits forever although nobody holds the lock",
 	"unobtainable-though-nobody-holds-it-after-a-failed-acquisition": "after an acquisition that reported an error, nobody holds the lock and yet it cannot be obtained any more (the failed acquisition kept something)",
-	"release-never-returns":               "a release call never returns",
-	"panic":                               "a lock operation panicked",
-	"crash":                               "a lock operation killed the process (fatal runtime error)",
-	"outer-reader-admitted-while-writer-holds":                   "outer-cancel: a reader was admitted before the writer unlocked",
-	"outer-writer-granted-before-reader-released-or-cancelled":   "outer-cancel: a writer was granted while an earlier reader had neither released nor been cancelled",
-	"outer-reader-cancelled-before-grace-since-writer-asked":     "outer-cancel: a reader's context was cancelled earlier than the grace period after the writer's Lock call",
-	"outer-reader-cancelled-for-a-writer-with-another-cause":     "outer-cancel: a reader was cancelled for a writer with a cause other than the configured one",
-	"outer-reader-cancelled-for-no-allowed-reason":               "outer-cancel: a reader's context ended although it had not released, its parent lives, no writer asked and there was no shutdown",
+	"release-never-returns":                                          "a release call never returns",
+	"panic":                                                          "a lock operation panicked",
+	"crash":                                                          "a lock operation killed the process (fatal runtime error)",
+	"outer-reader-admitted-while-writer-holds":                       "outer-cancel: a reader was admitted before the writer unlocked",
+	"outer-writer-granted-before-reader-released-or-cancelled":       "outer-cancel: a writer was granted while an earlier reader had neither released nor been cancelled",
+	"outer-reader-cancelled-before-grace-since-writer-asked":         "outer-cancel: a reader's context was cancelled earlier than the grace period after the writer's Lock call",
+	"outer-reader-cancelled-for-a-writer-with-another-cause":         "outer-cancel: a reader was cancelled for a writer with a cause other than the configured one",
+	"outer-reader-cancelled-for-no-allowed-reason":                   "outer-cancel: a reader's context ended although it had not released, its parent lives, no writer asked and there was no shutdown",
 }
 
 // findingKey: primitive + the monitor's reason.  For cmap, everything that follows a delete-and-release of the key
@@ -610,11 +613,17 @@ func TestCheck(t *testing.T) {
 	t0 := time.Now()
 	res, err := runScenarios(scs, ev.Pick(10, 12))
 	fmt.Printf("executed %d scenarios in child processes, wall=%s\n", len(res), time.Since(t0).Round(time.Millisecond))
-	mcDone.Wait()
+	// everything below runs while the model checking goes on; all of it is awaited before the evidence is written
+	var side sync.WaitGroup
+	defer mcDone.Wait()
+	defer side.Wait()
 	if err != nil {
 		e.Inconclusive("scenario execution failed: " + err.Error())
 		return
 	}
+	side.Add(2)
+	go func() { defer side.Done(); bindModels(e, scs, res) }()
+	go func() { defer side.Done(); selfTest(e) }()
 
 	b := &tv.Batch{}
 	var idx []*trace
@@ -655,7 +664,7 @@ func TestCheck(t *testing.T) {
 	if d := os.Getenv("C13_KEEP"); d != "" { // debugging aid: keep the recorded traces
 		_ = os.WriteFile(filepath.Join(d, "c13-traces.ndjson"), b.Bytes(), 0o644)
 	}
-	rej, vres := tv.Validate(tlc.Opts{Dir: "Locks", Module: "TraceLocks", Config: "TraceLocks.cfg", Workers: 16, Timeout: ev.Pick(6*time.Minute, 40*time.Minute), HeapMB: 12000}, b)
+	rej, vres := tv.Validate(tlc.Opts{Dir: "Locks", Module: "TraceLocks", Config: "TraceLocks.cfg", Workers: 8, Timeout: ev.Pick(6*time.Minute, 40*time.Minute), HeapMB: 8000}, b)
 	fmt.Printf("TLC contract validation: ok=%v traces=%d rejected=%d distinct=%d wall=%s %s\n", vres.OK, b.Len(), len(rej), vres.Distinct, vres.Wall.Round(time.Millisecond), firstLine(vres.What))
 	if !vres.OK {
 		e.Inconclusive("trace validation did not run: " + vres.What + vres.Tail(1500))
@@ -666,7 +675,7 @@ func TestCheck(t *testing.T) {
 	e.Set("traces_per_primitive", perPrim)
 	e.Set("process_crashes", int64(crashes))
 	e.Set("observations_outside_the_property", notes)
-	e.Set("process_crashes_not_reproduced_in_isolation", int64(unconfirmedCrashes))
+	e.Set("process_crashes_not_reproduced_in_isolation", unconfirmedCrashes.Load())
 	e.Assume("FIFO-ness of the Go channel send queue is an axiom of FifoMutex.tla/FifoMap.tla (corroborated, not proved, by the traces)",
 		"lock.OuterCancel runs inside a testing/synctest bubble: time is virtual, a client records the return of its call at the instant it returned; its mutual-exclusion clauses are judged while it is running (before shutdown)",
 		"arrival order of FIFO waiters = the order in which the quiescence detector first sees them blocked in `chan send` inside fifo.(*Mutex).Lock (lockers move one at a time)",
@@ -784,7 +793,159 @@ func TestCheck(t *testing.T) {
 		e.Violation(k, hit.wh, tv.M{"scenario": tr.sc, "schedule": tr.schedule, "trace": b.TraceStrings(hit.r.Trace), "at": hit.r.At, "crash": tr.crash, "crash_log": tr.crashLog, "rejected_runs_with_this_key": seen[k]})
 	}
 	e.Set("rejections_not_reproduced", notReproduced)
-	selfTest(e)
+}
+
+// bindModels: binding of the implementation-shaped models to the code.  The hook-level traces of the gated runs of
+// fifo.Map and cmap.Mutex (calls/returns + every verif point passed + arrivals / VerifMapLen observations) must be
+// behaviours of FifoMap.tla resp. CmapMutex.tla.  A trace that is not explained is DRIFT between model and code:
+// reported in the evidence and on one DRIFT line, never a violation and never a change of the exit code.
+func bindModels(e *ev.Evidence, scs []scenario, res map[int]*trace) {
+	total, drift, notRepro := 0, 0, 0
+	broken := false
+	selfOK := map[string]bool{}
+	var mu sync.Mutex
+	var wg sync.WaitGroup
+	for _, m := range []struct{ prim, module, model string }{{"fifomap", "TraceFifoMapImpl", "FifoMap"}, {"cmap", "TraceCmapImpl", "CmapMutex"}} {
+		m := m
+		wg.Add(1)
+		go func() {
+			defer wg.Done()
+			bindOne(e, scs, res, m.prim, m.module, m.model, &mu, &total, &drift, &notRepro, &broken, selfOK)
+		}()
+	}
+	wg.Wait()
+
+	e.Set("binding_selftest_impl", selfOK)
+	e.Set("impl_traces_validated", int64(total))
+	e.Set("impl_drift_traces", int64(drift))
+	e.Set("impl_unexplained_not_reproduced", int64(notRepro))
+	e.Set("drift", drift > 0 || broken)
+}
+
+func bindOne(e *ev.Evidence, scs []scenario, res map[int]*trace, prim, module, model string, mu *sync.Mutex, total, drift, notReproduced *int, broken *bool, selfOK map[string]bool) {
+	hb := &tv.Batch{}
+	var idx []*trace
+	for _, s := range scs {
+		tr := res[s.ID]
+		if s.Prim != prim || s.Free || tr == nil || !tr.done || tr.err != "" || tr.crash != "" {
+			continue
+		}
+		hb.AppendTrace(tr.lines)
+		idx = append(idx, tr)
+	}
+	if hb.Len() == 0 {
+		return
+	}
+	opts := tlc.Opts{Dir: "Locks", Module: module, Config: module + ".cfg", Workers: 6, Timeout: ev.Pick(6*time.Minute, 40*time.Minute), HeapMB: 8000}
+	missing, hres := tv.ValidateDoneChunked(opts, hb)
+	fmt.Printf("TLC model-binding validation (hook-level traces of %s vs %s.tla): ok=%v traces=%d not-explained=%d distinct=%d wall=%s %s\n", prim, model, hres.OK, hb.Len(), len(missing), hres.Distinct, hres.Wall.Round(time.Millisecond), firstLine(hres.What))
+	// like every other finding, drift must be reproducible: the unexplained runs (at most 8) are executed again in a
+	// fresh process; a run whose repetition is explained is counted apart (a quiescent point misjudged under overload)
+	notRepro := 0
+	if hres.OK && len(missing) > 0 {
+		var again []scenario
+		for _, m := range missing {
+			if len(again) < 8 {
+				again = append(again, idx[m].sc)
+			}
+		}
+		if res2, err2 := runScenarios(again, 4); err2 == nil {
+			rb := &tv.Batch{}
+			var ridx []int
+			for k, s := range again {
+				if tr := res2[s.ID]; tr != nil && tr.done && tr.err == "" && tr.crash == "" {
+					rb.AppendTrace(tr.lines)
+					ridx = append(ridx, k)
+				}
+			}
+			ro := opts
+			ro.Workers = 4
+			rm, rres := tv.ValidateDone(ro, rb)
+			if rres.OK {
+				still := map[int]bool{}
+				for _, m := range rm {
+					still[ridx[m]] = true
+				}
+				var keep []int
+				for k, m := range missing {
+					if k >= len(again) || still[k] {
+						keep = append(keep, m)
+					} else {
+						notRepro++
+					}
+				}
+				fmt.Printf("model-binding: repeated %d unexplained %s runs in fresh processes: %d unexplained again\n", len(again), prim, len(rm))
+				missing = keep
+			}
+		}
+	}
+	mu.Lock()
+	*total += hb.Len()
+	if !hres.OK {
+		*broken = true
+	} else {
+		*drift += len(missing)
+		*notReproduced += notRepro
+	}
+	mu.Unlock()
+	if !hres.OK {
+		fmt.Printf("DRIFT property=C13 the model-binding validation of %s did not run: %s %s\n", prim, firstLine(hres.What), hres.Tail(600))
+		return
+	}
+	if len(missing) > 0 {
+		tr := idx[missing[0]]
+		fmt.Printf("DRIFT property=C13 %d hook-level traces of %s are not behaviours of %s.tla (model and code diverge; not a violation by itself), first: scenario %s schedule %v trace %v\n",
+			len(missing), prim, model, mustJSON(tr.sc), tr.schedule, hb.TraceStrings(missing[0]))
+	}
+	// binding self-test: one recorded, explained trace and a copy with one logged outcome falsified (the found flag of
+	// a look-up resp. the number of entries): the first must be explained, the second must not
+	unexplained := map[int]bool{}
+	for _, m := range missing {
+		unexplained[m] = true
+	}
+	for i, tr := range idx {
+		bad := corruptHook(tr.lines, prim)
+		if bad == nil || unexplained[i] {
+			continue
+		}
+		sb := &tv.Batch{}
+		sb.AppendTrace(tr.lines)
+		sb.AppendTrace(bad)
+		so := opts
+		so.Workers, so.Timeout = 2, 3*time.Minute
+		sm, sres := tv.ValidateDone(so, sb)
+		ok := sres.OK && len(sm) == 1 && sm[0] == 1
+		mu.Lock()
+		selfOK[prim] = ok
+		mu.Unlock()
+		if !ok {
+			e.Inconclusive(fmt.Sprintf("model-binding self-test failed for %s: unexplained=%v %s %s", prim, sm, sres.What, sres.Tail(400)))
+		}
+		break
+	}
+}
+
+// corruptHook returns a copy of the trace with the first logged outcome of a decision point falsified, nil if the
+// trace has none.
+func corruptHook(lines [][]byte, prim string) [][]byte {
+	for i, l := range lines {
+		var m map[string]any
+		if json.Unmarshal(l, &m) != nil {
+			continue
+		}
+		switch {
+		case prim == "cmap" && m["ev"] == "hook" && strings.HasSuffix(fmt.Sprint(m["point"]), ".lookedUp"):
+			m["found"] = !(m["found"] == true)
+		case prim == "fifomap" && m["ev"] == "obs":
+			m["entries"] = int(m["entries"].(float64)) + 1
+		default:
+			continue
+		}
+		out := append([][]byte{}, lines...)
+		out[i] = mustJSON(m)
+		return out
+	}
+	return nil
 }
 
 // selfTest: the binding of the trace format to the monitor - a valid history is accepted, corrupted ones are rejected.
